@@ -7,6 +7,10 @@ WHICH = {"eventmonitor_init": ("verify_eventmonitor_init", "amaranth_soc.csr.eve
                                 "csr.event.EventMonitor.__init__::both-mask-registers-fit-the-address-space"]),
          "wb_csr_bridge_init": ("verify_wb_csr_bridge_init", "amaranth_soc.csr.wishbone.WishboneCSRBridge.__init__",
                                 ["csr.wishbone.WishboneCSRBridge.__init__::wishbone-address-space-times-ratio-covers-the-csr-space"]),
+         "gpio_init": ("verify_gpio_init", "amaranth_soc.gpio.Peripheral.__init__",
+                       ["gpio.Peripheral.__init__::registers-added-in-the-order-Mode-Input-Output-SetClr",
+                        "gpio.Peripheral.__init__::bus-carries-the-bridge's-memory-map",
+                        "gpio.Peripheral.__init__::accepts-only-valid-parameters"]),
          "sram_init": ("verify_sram_init", "amaranth_soc.wishbone.sram.WishboneSRAM.__init__",
                        ["wishbone.sram.WishboneSRAM.__init__::bus-addresses-exactly-the-granules-of-the-map",
                         "wishbone.sram.WishboneSRAM.__init__::accepts-only-valid-parameters",
